@@ -345,6 +345,34 @@ Definition rotate (a : N) (q : vec) := modify_attr (3%N, a) (map (rotate_v q)).
 Definition apply_trs (pos : N) (t : vec * vec * vec) := modify_attr (3%N, pos) (map (trs_v t)).
 Definition center (a : N) := modify_attr (3%N, a) center_data.
 
+(* ---------------------------------------------------------------- meshops.ScaleAttributeAlongNormal *)
+(* v_i := v_i + n_i * amount, n = the values of a second 3-component attribute (polynomial: exact on
+   integers, so this operation is in the exact language, not among the float-valued frame operations) *)
+Definition along_normal (amt : Z) (dn d : list vec) : list vec :=
+  map (fun p => vzip Z.add (snd p) (map (Z.mul amt) (nth (fst p) dn []))) (combine (seq 0 (length d)) d).
+Definition scale_along_normal (a nrm : N) (amt : Z) (m : mesh) : res :=
+  match lookup (3%N, nrm) (attrs m) with
+  | Some dn => modify_attr (3%N, a) (along_normal amt dn) m
+  | None => Declared
+  end.
+
+(* ---------------------------------------------------------------- meshops.SliceByPlaneWithAttribute *)
+(* [clip] abstracts "plane.Normal().Dot(v - plane.Origin()) < 0".  First result ("above"): the triangles
+   all three corners of which are clipped; second ("below"): those none of whose corners is; triangles the
+   plane passes through belong to neither.  Both keep the material list and drop unreferenced vertices.
+   After the repair fixes/C02-slice-requires-triangles: other topologies and a missing attribute are a
+   declared failure (the pinned code walks ANY index list in threes and keeps the topology). *)
+Definition slice (a : N) (clip : vec -> bool) (m : mesh) : res :=
+  match topology m, lookup (3%N, a) (attrs m) with
+  | Triangle, Some d =>
+      Ok [remove_unref (set_indices m (filter_idx Triangle (fun i => clip (nth i d [])) (indices m)));
+          remove_unref (set_indices m (filter_idx Triangle (fun i => negb (clip (nth i d []))) (indices m)))]
+  | _, _ => Declared
+  end.
+(* the plane test on integer coordinates: the plane through point [o] with (unnormalised) normal [n];
+   sign (n . (v - o)) = sign of the Go expression, whose normal is n / |n| and whose origin is the foot point *)
+Definition plane_clip (n o v : vec) : bool := (dot n (vzip Z.sub v o) <? 0)%Z.
+
 (* ---------------------------------------------------------------- repeat.Mesh *)
 Fixpoint repeat_from (pos : N) (acc m : mesh) (ts : list (vec * vec * vec)) : res :=
   match ts with
@@ -382,7 +410,9 @@ Inductive op :=
 | OScale2 (a : N) (origin amount : vec)
 | ORotate (a : N) (q : vec)
 | OApplyTRS (pos : N) (t : vec * vec * vec)
-| OCenter (a : N).
+| OCenter (a : N)
+| OSlice (a : N) (clip : vec -> bool)
+| OScaleAlongNormal (a nrm : N) (amt : Z).
 
 Definition step (o : op) (ins : list mesh) : res :=
   match o, ins with
@@ -406,6 +436,8 @@ Definition step (o : op) (ins : list mesh) : res :=
   | ORotate a q, [m] => rotate a q m
   | OApplyTRS pos t, [m] => apply_trs pos t m
   | OCenter a, [m] => center a m
+  | OSlice a clip, [m] => slice a clip m
+  | OScaleAlongNormal a nrm amt, [m] => scale_along_normal a nrm amt m
   | _, _ => Declared
   end.
 
